@@ -34,6 +34,15 @@ uint64_t sim_hash(uint64_t seed, uint64_t kind, uint64_t obj, uint64_t n) {
     return h;
 }
 
+/* tagged payload bytes: byte `off` of stream w is a function of (w, off) */
+uint8_t sim_tagb(uint64_t w, uint64_t off) {
+    uint8_t b = (uint8_t)(sim_hash(0x7A6, w, off >> 3, 0) >> ((off & 7) * 8));
+    /* tag streams 100..999 are used by several writers on one stream: the top two bits name the
+     * writer (w mod 10), so that bytes of different writers can never be confused */
+    if (w >= 100 && w < 1000) b = (uint8_t)((((w % 10) & 3) << 6) | (b & 0x3f));
+    return b;
+}
+
 int sim_decide(int kind, uint32_t obj, uint64_t n, int64_t *param_out) {
     if (!sim_cfg.active) return 0;
     if (sim_cfg.explicit_mode) {
